@@ -10,9 +10,9 @@ LEAN_TARGETS = ['Props.C03']
 OBLIGATIONS = [
     'C03.dense_kernel_is_contraction', 'C03.sparse_kernel_is_contraction', 'C03.kernel_output_size', 'C03.contraction_entry_order',
     'C03.grade_filtered_kernel', 'C03.get_mult_function_spec', 'C03.scalar_operand_gp', 'C03.scalar_operand_op',
-    'C03.promote_same', 'C03.promote_ge', 'C03.promote_is_one_of',
+    'C03.promote_same', 'C03.promote_ge', 'C03.promote_is_one_of', 'C03.left_matrix_is_contraction', 'C03.right_matrix_is_contraction',
 ]
-PENDING = ['leftMat/rightMat ·ᵥ b = contraction as a Lean theorem about the nested-array model (compared by correspondence only)']
+PENDING = []
 RULE = ("every kernel (gmt/omt/imt/lcmt x default/grade-filtered) and the left/right matrices on dense, sparse, single-blade and all-zero operand "
         "patterns in int/float/complex dtypes; every operator x operand-class pair; non-trivial = both operands non-zero (zero patterns are "
         "counted separately in the distribution); distinct = distinct (layout, kernel, operands) text")
